@@ -566,6 +566,41 @@ func FuncValue(v ssa.Value) *ssa.Function {
 	return nil
 }
 
+// FuncValueDeep resolves v like FuncValue and, in addition, looks through one
+// call of a function that returns a function literal or a bound method
+// (`f(x)` where f is `func f(x T) func(...) { return func(...) {...} }`).
+func FuncValueDeep(v ssa.Value) *ssa.Function {
+	if f := FuncValue(v); f != nil {
+		return f
+	}
+	call, ok := Strip(v).(*ssa.Call)
+	if !ok {
+		return nil
+	}
+	callee := call.Call.StaticCallee()
+	if callee == nil || callee.Blocks == nil {
+		return nil
+	}
+	var res *ssa.Function
+	many := false
+	EachInstr(callee, func(ins ssa.Instruction) {
+		ret, ok := ins.(*ssa.Return)
+		if !ok || len(ret.Results) != 1 {
+			return
+		}
+		f := FuncValue(ret.Results[0])
+		if f == nil || (res != nil && res != f) {
+			many = true
+			return
+		}
+		res = f
+	})
+	if many {
+		return nil
+	}
+	return res
+}
+
 // CommandEntries returns the Run functions of the commands whose Use string
 // satisfies sel.
 func CommandEntries(c *Ctx, sel func(use string) bool) []*ssa.Function {
@@ -693,4 +728,12 @@ func IsLoopExitTest(b *ssa.BasicBlock, target *ssa.BasicBlock) bool {
 	}
 	// target inside the loop? (can target reach b again)
 	return !BlockReaches(target, b, nil) || target == b
+}
+
+// PkgPathOfVar returns the import path of the package that declares v.
+func PkgPathOfVar(v *types.Var) string {
+	if v == nil || v.Pkg() == nil {
+		return ""
+	}
+	return v.Pkg().Path()
 }
